@@ -534,15 +534,19 @@ impl MediaStreamTrack for SampleStreamTrack {
                 #[cfg(rustrtc_verif)]
                 crate::verif_sched::yield_point(crate::verif_sched::RECV_LOCK);
                 let _pop_guard = self.pop_lock.lock();
+                // Read the flag before popping: no push can follow it, so an empty pop
+                // after a set flag means the queue is drained. (Popping first could miss
+                // a sample pushed right before the last source was dropped.)
+                #[cfg(rustrtc_verif)]
+                crate::verif_sched::yield_point(crate::verif_sched::RECV_LOAD_CLOSED1);
+                let closed = self.source_closed.load(Ordering::Acquire);
                 if let Some(sample) = self.queue.pop() {
                     #[cfg(rustrtc_verif)]
                     crate::verif_sched::yield_point(crate::verif_sched::RECV_UNLOCK_RET);
                     return Ok(sample);
                 }
 
-                #[cfg(rustrtc_verif)]
-                crate::verif_sched::yield_point(crate::verif_sched::RECV_LOAD_CLOSED1);
-                if self.source_closed.load(Ordering::Acquire) {
+                if closed {
                     #[cfg(rustrtc_verif)]
                     crate::verif_sched::yield_point(crate::verif_sched::RECV_STORE_ENDED1);
                     self.ended.store(true, Ordering::SeqCst);
